@@ -29,6 +29,11 @@ EXTENDS FuncFileOps
 CONSTANT TrimAll   \* FALSE: the code (TrimSuffix: one backslash is the continuation mark).  TRUE: negative control
                    \* (TrimRight: every trailing backslash goes) - must be refuted against Meaning
 Unmark(line) == IF TrimAll THEN DropAllBsl(line) ELSE DropBsl(line)
+CONSTANTS Builtins,  \* names the loading compiler knows before the file (the standard helpers)
+          OnError    \* what a definition that does not compile does to the others.  "skip": the code (reported, not
+                     \* registered, the loader goes on, everything that compiled is delivered).  Negative controls:
+                     \* "dropall" - the loader hands back nothing at all when any definition failed (`return nil, err`);
+                     \* "stop" - the loader gives up at the first failing definition
 
 \* ---------------------------------------------------------------- the loader as a state machine
 \* pc: "scan" (inner loop: the next scanner.Scan()) | "emit" (a phrase is complete) | "done"
@@ -38,10 +43,12 @@ VARIABLES file,      \* the physical lines
           linenum,
           defs,      \* definitions registered so far, in order
           skipped,   \* phrases without an expression ("Missing expression")
+          regs,      \* the definitions that compiled: compiler.Func(name, ..) and ret[name] = fnc
+          errs,      \* definitions that did not compile
           pc
-lvars == <<file, pos, sb, linenum, defs, skipped, pc>>
+lvars == <<file, pos, sb, linenum, defs, skipped, regs, errs, pc>>
 
-LInit(f) == file = f /\ pos = 0 /\ sb = <<>> /\ linenum = 0 /\ defs = <<>> /\ skipped = 0 /\ pc = "scan"
+LInit(f) == file = f /\ pos = 0 /\ sb = <<>> /\ linenum = 0 /\ defs = <<>> /\ skipped = 0 /\ regs = <<>> /\ errs = 0 /\ pc = "scan"
 
 \* for scanner.Scan() { linenum++ ; line := TrimSpace(trimAfter(..)) ; if line == "" { continue } ...
 Scan ==
@@ -51,20 +58,30 @@ Scan ==
      IF line = <<>> THEN UNCHANGED <<sb, pc>>                                    \* continue
      ELSE IF IsCont(line) THEN sb' = sb \o Unmark(line) /\ UNCHANGED pc          \* multiline
      ELSE sb' = sb \o line /\ pc' = "emit"                                       \* break
-  /\ UNCHANGED <<file, defs, skipped>>
+  /\ UNCHANGED <<file, defs, skipped, regs, errs>>
 \* scanner.Scan() returns false: the inner loop ends
 Eof ==
   /\ pc = "scan" /\ pos = Len(file)
   /\ pc' = IF sb = <<>> THEN "done" ELSE "emit"                                  \* if sb.Len() == 0 { break }
-  /\ UNCHANGED <<file, pos, sb, linenum, defs, skipped>>
+  /\ UNCHANGED <<file, pos, sb, linenum, defs, skipped, regs, errs>>
 \* args := strings.SplitN(phrase, " ", 2) ... ret[args[0]] = fnc ; next round of the outer loop
 Emit ==
   /\ pc = "emit"
-  /\ LET d == DefOf(sb) IN
-     IF d.ok THEN defs' = Append(defs, [name |-> d.name, body |-> d.body]) /\ UNCHANGED skipped
-     ELSE skipped' = skipped + 1 /\ UNCHANGED defs
-  /\ sb' = <<>> /\ pc' = "scan"
+  /\ LET d == DefOf(sb)
+         def == [name |-> d.name, body |-> d.body]
+         good == d.ok /\ CompilesB(d.body, Builtins \cup NamesOf(regs))      \* createAndAddFunc: compiler.Compile(expr)
+     IN
+     /\ IF d.ok THEN defs' = Append(defs, def) /\ UNCHANGED skipped
+        ELSE skipped' = skipped + 1 /\ UNCHANGED defs
+     /\ IF good THEN regs' = Append(regs, def) /\ UNCHANGED errs               \* compiler.Func(name, fnc); ret[name] = fnc
+        ELSE IF d.ok THEN errs' = errs + 1 /\ UNCHANGED regs                    \* logged, errors++
+        ELSE UNCHANGED <<regs, errs>>
+     /\ pc' = IF d.ok /\ ~good /\ OnError = "stop" THEN "done" ELSE "scan"
+  /\ sb' = <<>>
   /\ UNCHANGED <<file, pos, linenum>>
+\* what the caller (main.go: funclib.TryAddFunctions(LoadDefinitionsFile(..))) is handed, and so what every key builder
+\* of the process knows afterwards
+Delivered == IF OnError = "dropall" /\ errs > 0 THEN <<>> ELSE regs
 LNext == Scan \/ Eof \/ Emit
 
 LineCount == linenum = pos /\ pos <= Len(file)
